@@ -57,7 +57,12 @@ var (
 	Local = time.Local
 )
 
-func Now() Time             { return simrt.Now() }
+func Now() Time {
+	if h := simrt.ClockReadHook; h != nil {
+		h()
+	}
+	return simrt.Now()
+}
 func Sleep(d Duration)      { simrt.Sleep(d) }
 func Since(t Time) Duration { return simrt.Now().Sub(t) }
 func Until(t Time) Duration { return t.Sub(simrt.Now()) }
